@@ -404,7 +404,27 @@ func (g *cssGen) absLength() string {
 
 func (g *cssGen) color() string {
 	r := g.r
-	switch r.Intn(14) {
+	switch r.Intn(16) {
+	case 14, 15:
+		// the colour of a named keyword in another notation (every entry of the hex->name table is reachable), and
+		// every keyword itself
+		name := cssColorNames[r.Intn(len(cssColorNames))]
+		hex := cssNamedColors[name]
+		var rr, gg, bb int
+		fmt.Sscanf(hex, "%02x%02x%02x", &rr, &gg, &bb)
+		switch r.Intn(6) {
+		case 0:
+			return name
+		case 1:
+			return "#" + hex
+		case 2:
+			return "#" + strings.ToUpper(hex)
+		case 3:
+			return "#" + hex + "ff"
+		case 4:
+			return fmt.Sprintf("rgb(%d,%d,%d)", rr, gg, bb)
+		}
+		return fmt.Sprintf("rgba(%d, %d, %d, 1)", rr, gg, bb)
 	case 0:
 		return r.Pick([]string{"red", "RED", "Blue", "black", "white", "gold", "tan", "fuchsia", "magenta", "aqua", "cyan", "gray", "grey", "darkgray", "lightslategrey", "rebeccapurple", "transparent", "currentColor", "currentcolor", "lime", "olive", "navy", "silver", "maroon", "orange"})
 	case 13:
@@ -444,6 +464,19 @@ func (g *cssGen) color() string {
 }
 
 func (g *cssGen) url() string {
+	if g.r.Chance(1, 6) {
+		// data URIs whose quotes are written as escapes or hidden in base64: re-encoding brings out raw ' and "
+		u := g.r.Pick([]string{
+			"data:image/svg+xml,%3Csvg xmlns=%27http://www.w3.org/2000/svg%27%3E%3Cpath d=%27M0 0L1 1%27/%3E%3C/svg%3E",
+			"data:text/plain,it%27s here and there and everywhere",
+			"data:text/plain,say %22hi%22 to everybody out there",
+			"data:text/plain;base64,aXQncyBoZXJlIGFuZCB0aGVyZSBhbmQgZXZlcnl3aGVyZQ==",
+			"data:text/plain;base64,c2F5ICJoaSIgYW5kIGl0J3MgKGRvbmUp",
+			"data:text/plain,a%28b%29c%20d and some more text to make it long",
+		})
+		q := g.r.Pick([]string{"'", "\""})
+		return "url(" + q + u + q + ")"
+	}
 	u := g.r.Pick([]string{"a.png", "img/b c.png", "http://x/y.gif", "data:image/png;base64,iVBORw0KGgo=", "x(1).png", "a'b.png", "#frag", "a.svg#i"})
 	needQ := strings.ContainsAny(u, " ()'")
 	switch {
